@@ -394,7 +394,7 @@ pub fn stream_seq(seed: u64, n: u64, sink: &mut Sink) {
         if !sink.wanted("seq", ci) {
             continue;
         }
-        let limit_case = ci % 25 == 0;
+        let limit_case = ci % 10 == 0;
         let w = gen_world(&mut r, limit_case);
         let mut ids = Ids::new();
         let (store, headers) = make_store(&w, &mut ids);
